@@ -610,4 +610,193 @@ theorem sepA_step {s₁ s₂ : Side} {H : Hyps} {L : Lex} (hs₁ : s₁.Ok H L) 
     exact ⟨M+1, .bad, by simp, hppl, rfl⟩
   | fuel => rw [hrx] at hne; simp at hne
 
+/-- body `Sequence[s, y']` evaluated from the results of its two kids (truthy case) -/
+theorem body_TT {g : Graph} {L : Lex} {b s y' : Nat} {nb : Node} (hb : g.get b = some nb)
+    (ht : transparentSeq nb = true) (hk : nb.kids = [s, y']) {m : Nat} {c : Bool} {q q1 q2 : Nat}
+    (h1 : parse g L m s c q = .ok .T q1) (h2 : parse g L m y' c q1 = .ok .T q2) :
+    parse g L (m+1) b c q = .ok .T q2 := by
+  obtain ⟨_, _, hsup⟩ := transparent_iff ht
+  rw [parse_seq hb ht, hk]
+  simp [seqLoop, h1, h2, Sh.add, seqRes, finish, hsup]
+
+theorem body_second {g : Graph} {L : Lex} {b s y' : Nat} {nb : Node} (hb : g.get b = some nb)
+    (ht : transparentSeq nb = true) (hk : nb.kids = [s, y']) {m : Nat} {c : Bool} {q q1 : Nat}
+    (h1 : parse g L m s c q = .ok .T q1) {r2 : Res} (h2 : parse g L m y' c q1 = r2)
+    (hr : r2 = .fail ∨ r2 = .bad) : parse g L (m+1) b c q = r2 := by
+  rw [parse_seq hb ht, hk]
+  simp only [seqLoop, h1, h2]
+  rcases hr with h | h <;> subst h <;> simp [seqRes, finish]
+
+theorem body_first {g : Graph} {L : Lex} {b s y' : Nat} {nb : Node} (hb : g.get b = some nb)
+    (ht : transparentSeq nb = true) (hk : nb.kids = [s, y']) {m : Nat} {c : Bool} {q : Nat}
+    {r1 : Res} (h1 : parse g L m s c q = r1) (hr : r1 = .fail ∨ r1 = .bad) :
+    parse g L (m+1) b c q = r1 := by
+  rw [parse_seq hb ht, hk]
+  simp only [seqLoop, h1]
+  rcases hr with h | h <;> subst h <;> simp [seqRes, finish]
+
+theorem sepB_loop {s₁ s₂ : Side} {H : Hyps} {L : Lex} (hs : s₁.Ok H L) {b s y' z t : Nat} {nb : Node}
+    (hb : s₂.g.get b = some nb) (ht : transparentSeq nb = true) (hk : nb.kids = [s, y'])
+    (hZ : onlyT s₁.sh z = true) (hT : onlyT s₁.sh t = true) {n : Nat}
+    (trT : Tr s₁ s₂ L n t s) (trZ : Tr s₁ s₂ L n z y') (c : Bool) :
+    ∀ j q, repLoop (fun q => parse s₁.g L n z c q) (some fun q => parse s₁.g L n t c q) j q .T false true ≠ .fuel →
+      ∃ m₀, ∀ m, m₀ ≤ m → ∀ j', j ≤ j' → ∀ accR prevR,
+        starToPlus (repLoop (fun q => parse s₂.g L (m+1) b c q) none j' q accR false prevR) =
+          repLoop (fun q => parse s₁.g L n z c q) (some fun q => parse s₁.g L n t c q) j q .T false true := by
+  intro j
+  induction j with
+  | zero => intro q h; simp [repLoop] at h
+  | succ j ih =>
+    intro q hne
+    simp only [repLoop, sepStep, if_true] at hne ⊢
+    cases h1 : parse s₁.g L n t c q with
+    | ok v q1 =>
+      have hv := onlyT_val hs hT h1
+      subst hv
+      rw [h1] at hne
+      simp only [T_add] at hne ⊢
+      obtain ⟨m1, hm1⟩ := trT n (Nat.le_refl n) c q (by rw [h1]; simp)
+      rw [h1] at hm1
+      cases h2 : parse s₁.g L n z c q1 with
+      | ok w q2 =>
+        have hw := onlyT_val hs hZ h2
+        subst hw
+        rw [h2] at hne
+        simp only [Sh.truthy, if_true, T_add] at hne ⊢
+        obtain ⟨m2, hm2⟩ := trZ n (Nat.le_refl n) c q1 (by rw [h2]; simp)
+        rw [h2] at hm2
+        obtain ⟨m3, hm3⟩ := ih q2 hne
+        refine ⟨max m1 (max m2 m3), fun m hm j' hj' accR prevR => ?_⟩
+        obtain ⟨j'', rfl⟩ : ∃ j'', j' = j'' + 1 := ⟨j' - 1, by omega⟩
+        have hbody := body_TT (L := L) hb ht hk (hm1 m (by omega)) (hm2 m (by omega))
+        simp only [repLoop, sepStep, hbody, Sh.truthy, if_true]
+        exact hm3 m (by omega) j'' (by omega) _ _
+      | fail =>
+        rw [h2] at hne
+        obtain ⟨m2, hm2⟩ := trZ n (Nat.le_refl n) c q1 (by rw [h2]; simp)
+        rw [h2] at hm2
+        refine ⟨max m1 m2, fun m hm j' hj' accR prevR => ?_⟩
+        obtain ⟨j'', rfl⟩ : ∃ j'', j' = j'' + 1 := ⟨j' - 1, by omega⟩
+        have hbody := body_second (L := L) hb ht hk (hm1 m (by omega)) (hm2 m (by omega)) (Or.inl rfl)
+        simp [repLoop, sepStep, hbody, starToPlus]
+      | bad =>
+        rw [h2] at hne
+        obtain ⟨m2, hm2⟩ := trZ n (Nat.le_refl n) c q1 (by rw [h2]; simp)
+        rw [h2] at hm2
+        refine ⟨max m1 m2, fun m hm j' hj' accR prevR => ?_⟩
+        obtain ⟨j'', rfl⟩ : ∃ j'', j' = j'' + 1 := ⟨j' - 1, by omega⟩
+        have hbody := body_second (L := L) hb ht hk (hm1 m (by omega)) (hm2 m (by omega)) (Or.inr rfl)
+        simp [repLoop, sepStep, hbody, starToPlus]
+      | fuel => rw [h2] at hne; simp at hne
+    | fail =>
+      rw [h1] at hne
+      obtain ⟨m1, hm1⟩ := trT n (Nat.le_refl n) c q (by rw [h1]; simp)
+      rw [h1] at hm1
+      refine ⟨m1, fun m hm j' hj' accR prevR => ?_⟩
+      obtain ⟨j'', rfl⟩ : ∃ j'', j' = j'' + 1 := ⟨j' - 1, by omega⟩
+      have hbody := body_first (L := L) hb ht hk (hm1 m (by omega)) (Or.inl rfl)
+      simp [repLoop, sepStep, hbody, starToPlus]
+    | bad =>
+      rw [h1] at hne
+      obtain ⟨m1, hm1⟩ := trT n (Nat.le_refl n) c q (by rw [h1]; simp)
+      rw [h1] at hm1
+      refine ⟨m1, fun m hm j' hj' accR prevR => ?_⟩
+      obtain ⟨j'', rfl⟩ : ∃ j'', j' = j'' + 1 := ⟨j' - 1, by omega⟩
+      have hbody := body_first (L := L) hb ht hk (hm1 m (by omega)) (Or.inr rfl)
+      simp [repLoop, sepStep, hbody, starToPlus]
+    | fuel => rw [h1] at hne; simp at hne
+
+theorem starToPlus_ok {r : Res} {w : Sh} {p : Nat} (h : starToPlus r = .ok w p) :
+    w = .T ∧ ∃ w', r = .ok w' p := by
+  cases r with
+  | ok w' p' =>
+    simp only [starToPlus, Res.ok.injEq] at h
+    obtain ⟨rfl, rfl⟩ := h
+    exact ⟨rfl, w', rfl⟩
+  | fail => simp [starToPlus] at h
+  | fuel => simp [starToPlus] at h
+  | bad => simp [starToPlus] at h
+
+theorem starToPlus_fb {r r' : Res} (h : starToPlus r = r') (hr : r' = .fail ∨ r' = .bad) : r = r' := by
+  cases r with
+  | ok w' p' => rcases hr with h' | h' <;> subst h' <;> simp [starToPlus] at h
+  | fail => simpa [starToPlus] using h
+  | fuel => simpa [starToPlus] using h
+  | bad => simpa [starToPlus] using h
+
+theorem sepB_step {s₁ s₂ : Side} {H : Hyps} {L : Lex} (hs₁ : s₁.Ok H L) {d : Nat}
+    {x y st s y' z t : Nat} (hpl : plusSep s₁.g (peel s₁ d x) = some (z, t))
+    (hst : starSepBody s₂.g st = some (s, y'))
+    (hZ : onlyT s₁.sh z = true) (hT : onlyT s₁.sh t = true) {N : Nat}
+    (trzy : Tr s₁ s₂ L (N-1) z y) (trzy' : Tr s₁ s₂ L (N-1) z y') (trts : Tr s₁ s₂ L (N-1) t s)
+    (c : Bool) (p : Nat) (acc : Sh)
+    (hne : step1 (fun e q => parse s₁.g L N e c q) x p acc ≠ .fuel) :
+    ∃ m₀, ∀ m, m₀ ≤ m →
+      step2 (fun e q => parse s₂.g L m e c q) y st p acc = step1 (fun e q => parse s₁.g L N e c q) x p acc := by
+  obtain ⟨nst, b, nb, hgst, hkst, hsupst, hsst, hsepst, hkidsst, hb, htb, hkb⟩ := starSepBody_some hst
+  obtain ⟨nx, hgx, hkx, hsupx, hsx, hkidsx, hsepx⟩ := plusSep_some hpl
+  have hxne : parse s₁.g L N x c p ≠ .fuel := by
+    intro h; simp only [step1, h] at hne; exact hne rfl
+  have hpd := peel_down hs₁ d N x c p hxne
+  cases N with
+  | zero => simp [parse] at hxne
+  | succ n =>
+    simp only [Nat.add_sub_cancel] at trzy trzy' trts
+    have hpp := parse_plus (L := L) (n := n) (c := c) (p := p) hgx hkx hsupx hkidsx
+    simp only [hsepx, Option.map] at hpp
+    rw [hpd] at hpp
+    have hrl : repLoop (fun q => parse s₁.g L n z c q) (some fun q => parse s₁.g L n t c q) n p .E true false ≠ .fuel := by
+      intro h; rw [hpp, h] at hxne; simp [finish] at hxne
+    cases n with
+    | zero => simp [repLoop] at hrl
+    | succ j =>
+      simp only [repLoop, sepStep, Bool.false_eq_true, if_false] at hpp hrl
+      cases hz : parse s₁.g L (j+1) z c p with
+      | ok v p1 =>
+        have hv := onlyT_val hs₁ hZ hz
+        subst hv
+        rw [hz] at hpp hrl
+        simp only [Sh.truthy, if_true] at hpp hrl
+        have hET : Sh.E.add .T = .T := rfl
+        rw [hET] at hpp hrl
+        obtain ⟨m1, hm1⟩ := trzy (j+1) (Nat.le_refl _) c p (by rw [hz]; simp)
+        rw [hz] at hm1
+        obtain ⟨m2, hm2⟩ := sepB_loop hs₁ hb htb hkb hZ hT trts trzy' c j p1 hrl
+        refine ⟨max m1 (max m2 j) + 2, fun m hm => ?_⟩
+        obtain ⟨M, rfl⟩ : ∃ M, m = M + 1 + 1 := ⟨m - 2, by omega⟩
+        have hy := hm1 (M+1+1) (by omega)
+        have hps := parse_star (L := L) (n := M+1) (c := c) (p := p1) hgst hkst hsupst hkidsst
+        simp only [hsepst, Option.map] at hps
+        have hloop := hm2 M (by omega) (M+1) (by omega) .E false
+        simp only [step1, step2, hy, hps, hpp]
+        cases hl2 : repLoop (fun q => parse s₁.g L (j+1) z c q) (some fun q => parse s₁.g L (j+1) t c q) j p1 .T false true with
+        | ok w p2 =>
+          rw [hl2] at hloop
+          obtain ⟨hw, w', hw'⟩ := starToPlus_ok hloop
+          subst hw
+          rw [hw']
+          simp [finish, hsx, hsst, add_T, T_add]
+        | fail =>
+          rw [hl2] at hloop
+          rw [starToPlus_fb hloop (Or.inl rfl)]
+          simp [finish]
+        | bad =>
+          rw [hl2] at hloop
+          rw [starToPlus_fb hloop (Or.inr rfl)]
+          simp [finish]
+        | fuel => exact absurd hl2 hrl
+      | fail =>
+        rw [hz] at hpp
+        simp only [if_true, finish] at hpp
+        obtain ⟨m1, hm1⟩ := trzy (j+1) (Nat.le_refl _) c p (by rw [hz]; simp)
+        rw [hz] at hm1
+        exact ⟨m1, fun m hm => by simp [step1, step2, hm1 m hm, hpp]⟩
+      | bad =>
+        rw [hz] at hpp
+        simp only [finish] at hpp
+        obtain ⟨m1, hm1⟩ := trzy (j+1) (Nat.le_refl _) c p (by rw [hz]; simp)
+        rw [hz] at hm1
+        exact ⟨m1, fun m hm => by simp [step1, step2, hm1 m hm, hpp]⟩
+      | fuel => rw [hz] at hrl; simp at hrl
+
 end Rec
